@@ -1,0 +1,32 @@
+//go:build verif
+
+package gojq
+
+import (
+	"encoding/json"
+	"math/big"
+)
+
+// Verification hook for properties C05 and C06 of /verif (add-only; nothing here is compiled without
+// the build tag "verif").
+//
+// VerifCodeConstants returns the JSON values embedded in the instructions of a compiled query
+// (operands of push/const/index instructions): the containers among them are shared by every run of
+// the Code, so a run that writes into one of them breaks isolation (C05) and races (C06).
+// The returned slice is fresh; its elements are the very objects held by the code (not copies).
+func VerifCodeConstants(c *Code) []any {
+	var xs []any
+	for _, code := range c.codes {
+		if code == nil {
+			continue
+		}
+		switch code.op {
+		case oppush, opconst, opindex, opindexarray:
+			switch v := code.v.(type) {
+			case nil, bool, int, float64, *big.Int, json.Number, string, []any, map[string]any:
+				xs = append(xs, v)
+			}
+		}
+	}
+	return xs
+}
